@@ -697,7 +697,10 @@ def rt_sphinx(req):
                     # only PEP 563 (`from __future__ import annotations`) annotations are evaluated; strings written by
                     # hand in an eagerly compiled module are values
                     import __future__
-                    fut = bool(getattr(tgt, '__code__', None) and tgt.__code__.co_flags & __future__.annotations.compiler_flag)
+                    # ... and what matters is the module of the function the annotations were WRITTEN in: inspect follows
+                    # __wrapped__ (a contextlib.contextmanager / functools.wraps wrapper lives in an eager module)
+                    owner = inspect.unwrap(tgt, stop=lambda g_: hasattr(g_, '__signature__'))
+                    fut = bool(getattr(owner, '__code__', None) and owner.__code__.co_flags & __future__.annotations.compiler_flag)
                     ev = inspect.signature(tgt, eval_str=True) if fut else plain
             except Exception:  # noqa  (not evaluable / no signature: nothing to compare with)
                 same = False
